@@ -293,6 +293,32 @@ func rq7CtorNilContract(w *World) {
 				if isBuiltinCall(ainfo, s, "panic") && definitelyReached(s) {
 					bad = fmt.Sprintf("the constructor's panic at %s is reached for exactly this combination", w.pos(s.Pos()))
 				}
+				// a nil *T handed to a parameter of interface type becomes a typed nil: a `p == nil`
+				// test inside the callee is false for it, so whatever the callee does for "absent"
+				// is skipped (a helper that appends the terminator unless it is nil appends it)
+				if cf := callee(ainfo, s); cf != nil && definitelyReached(s) {
+					if sig, ok := cf.Type().(*types.Signature); ok {
+						for i, a := range s.Args {
+							if !isNilParam(a) {
+								continue
+							}
+							pi := i
+							if sig.Variadic() && pi >= sig.Params().Len()-1 {
+								pi = sig.Params().Len() - 1
+							}
+							if pi >= sig.Params().Len() {
+								continue
+							}
+							pt := sig.Params().At(pi).Type()
+							if sl, ok := pt.(*types.Slice); ok && sig.Variadic() && pi == sig.Params().Len()-1 {
+								pt = sl.Elem()
+							}
+							if _, isIface := pt.Underlying().(*types.Interface); isIface {
+								bad = fmt.Sprintf("%s (a nil pointer) is passed to %s at %s, whose parameter is an interface: it arrives as a typed nil that no `== nil` test in the callee recognises, and ends up in the child list", render(a), cf.Name(), w.pos(s.Pos()))
+							}
+						}
+					}
+				}
 				if isBuiltinCall(ainfo, s, "append") && len(s.Args) >= 2 {
 					for _, a := range s.Args[1:] {
 						if isNilParam(a) && definitelyReached(s) {
@@ -441,9 +467,10 @@ func rq8NodeInfoGuards(w *World) {
 // the reviewed table below.
 func rq10ConstIndexGuards(w *World) {
 	constIndexGuards(w, "RQ10", []string{"parser"}, func(fn string) bool {
-		return strings.HasSuffix(fn, "parser/result.go") || strings.HasSuffix(fn, "parser/validate.go")
+		return strings.HasSuffix(fn, "parser/result.go") || strings.HasSuffix(fn, "parser/validate.go") || strings.HasSuffix(fn, "parser/lexer.go") || strings.HasSuffix(fn, "parser/parser.go") || strings.HasSuffix(fn, "parser/ast.go")
 	}, map[string]string{
 		"parser.(*result).asGroupDescriptors|group.Name.Val[0]": "an identifier token is never empty (the lexer only produces _NAME for at least one identifier character)",
+		"parser.(*protoLex).Lex|token[0]":                       "the number branch is entered on a digit that readNumber leaves in the marked text, so the token has at least one character",
 	}, 5, "these functions keep running after an error was reported (keep-going reporter), so an earlier 'is empty' report does not protect the index — ResultFromAST panics with index out of range")
 }
 
@@ -517,6 +544,46 @@ func constIndexGuards(w *World, rule string, rels []string, fileOK func(string) 
 								e := strings.SplitN(strings.TrimPrefix(k, "lengt:"), "§", 2)[0]
 								if e == ls || strings.HasPrefix(e, ls+".") || strings.HasPrefix(e, ls+"[") {
 									out = out.without(k)
+								}
+							}
+						}
+					}
+					// constructions that establish a minimum length:
+					//   x = append(x, e1, …, en)           len(x) > n-1
+					//   x := make([]T, C + <non-negative>)  len(x) > C-1
+					if len(as.Lhs) == 1 && len(as.Rhs) == 1 {
+						ls := types.ExprString(as.Lhs[0])
+						if c, ok := ast.Unparen(as.Rhs[0]).(*ast.CallExpr); ok {
+							if isBuiltinCall(info, c, "append") && len(c.Args) >= 2 && !c.Ellipsis.IsValid() {
+								for m := 0; m < len(c.Args)-1; m++ {
+									out = out.with(fmt.Sprintf("lengt:%s§%d", ls, m))
+								}
+							}
+							if isBuiltinCall(info, c, "make") && len(c.Args) >= 2 {
+								var minLen int64 = -1
+								var walk func(e ast.Expr) (int64, bool)
+								walk = func(e ast.Expr) (int64, bool) {
+									e = ast.Unparen(e)
+									if tv, ok := info.Types[e]; ok && tv.Value != nil {
+										var v int64
+										fmt.Sscan(tv.Value.ExactString(), &v)
+										return v, true
+									}
+									if lc, ok := e.(*ast.CallExpr); ok && isBuiltinCall(info, lc, "len") {
+										return 0, true
+									}
+									if be, ok := e.(*ast.BinaryExpr); ok && be.Op == token.ADD {
+										a, ok1 := walk(be.X)
+										b, ok2 := walk(be.Y)
+										return a + b, ok1 && ok2
+									}
+									return 0, false
+								}
+								if v, ok := walk(c.Args[1]); ok {
+									minLen = v
+								}
+								for m := int64(0); m < minLen; m++ {
+									out = out.with(fmt.Sprintf("lengt:%s§%d", ls, m))
 								}
 							}
 						}
